@@ -327,7 +327,11 @@ func parentMain(id, tier string) int {
 		}
 	}
 	// classify violations against the committed known-findings file
-	findings := LoadFindings(filepath.Join(vd, "known_findings.json"))
+	fpath := filepath.Join(vd, "known_findings.json")
+	if alt := os.Getenv("VERIF_FINDINGS_FILE"); alt != "" {
+		fpath = alt // maintenance only: regenerate replay artefacts of listed findings
+	}
+	findings := LoadFindings(fpath)
 	known := map[string]Finding{}
 	for _, f := range findings {
 		if f.Property == id && f.Status == "known" {
